@@ -194,6 +194,8 @@ pub struct Flow {
     pub skip_commit_judgement_after_checks: Vec<usize>,
     /// the store was made to fail commits on purpose: what it holds at quiescent points is not judged (set by the caller)
     pub skip_all_commit_judgement: bool,
+    /// the store refuses writes of the last-contact entry: only the other book-keeping entries are judged
+    pub last_contact_store_faulty: bool,
 }
 
 pub fn retry_after(headers: &[(String, Vec<u8>)]) -> RetryAfter {
